@@ -14,7 +14,7 @@ import os
 import re
 
 from vx.api import Unit, Fn, Copy, Raw, Group
-from vx import extract as X
+from vx import extract as X, flagsmodel
 from vx.units import inodes as _inodes
 
 PT = 'src/passthrough/mod.rs'
@@ -24,7 +24,11 @@ FH = 'src/passthrough/file_handle.rs'
 CFG = 'src/passthrough/config.rs'
 UTIL = 'src/passthrough/util.rs'
 FSMOD = 'src/api/filesystem/mod.rs'
+ABI = 'src/abi/fuse_abi_linux.rs'
 HERE = os.path.dirname(os.path.abspath(__file__))
+
+# the error paths of `create` after do_lookup (see the report / DESIGN): switch on once the finding is fixed or recorded as known
+CHECK_CREATE_ERR_PATHS = True
 
 
 def _slice(text, start, end, what):
@@ -136,6 +140,185 @@ impl HandleMap {
 }
 '''
 
+PRE_TYPES = r"""
+// ---- opaque / minimal models of the types that only appear as fields or pass-through values
+#[derive(Clone, Copy)] pub struct Duration { pub secs: u64, pub nanos: u32 }
+#[verifier::external_body] pub struct UniqueInodeGenerator { _p: u8 }
+#[verifier::external_body] pub struct MountFds { _p: u8 }
+#[verifier::external_body] pub struct FileHandle { _p: u8 }
+#[verifier::external_body] pub struct MountFd { _p: u8 }
+#[verifier::external_body] pub struct CStr { _p: u8 }
+#[verifier::external_body] #[derive(Clone, Copy)] pub struct stat64 { _p: u8 }
+#[verifier::external_body] pub struct CapFsetid { _p: u8 }
+#[verifier::external_body] pub struct ScopedUid { _p: u8 }
+#[verifier::external_body] pub struct ScopedGid { _p: u8 }
+#[verifier::external_body] pub struct InodeFile { _p: u8 }
+#[verifier::external_body] pub struct BorrowedFd { _p: u8 }
+pub trait AsRawFd {}
+impl AsRawFd for File {}
+impl AsRawFd for InodeFile {}
+impl AsRawFd for BorrowedFd {}
+pub fn drop<T>(_x: T) {}                       // std::mem::drop: consumes its argument
+"""
+
+PRE_PT = r"""
+impl OpenOptions {
+    pub fn set(&mut self, o: OpenOptions, v: bool) { if v { self.insert(o); } else { self.remove(o); } }     // bitflags 1.x `set`
+}
+impl core::ops::BitOrAssign for OpenOptions { fn bitor_assign(&mut self, o: OpenOptions) { self.bits = self.bits | o.bits; } }
+impl vstd::std_specs::ops::BitOrAssignSpecImpl<OpenOptions> for OpenOptions {
+    open spec fn obeys_bitor_assign_spec() -> bool { true }
+    open spec fn bitor_assign_req(&self, o: OpenOptions) -> bool { true }
+    open spec fn bitor_assign_spec(&self, o: OpenOptions) -> &OpenOptions { &OpenOptions { bits: self.bits | o.bits } }
+}
+// the inode a descriptor was opened on (what open_inode(inode, ..) returns a descriptor of)
+pub uninterp spec fn file_inode(f: File) -> Inode;
+// CAPABILITY: the descriptor of a HandleData may only be touched when the contract of the requesting operation grants it
+pub uninterp spec fn fd_use_ok(d: HandleData) -> bool;
+impl HandleData {
+    #[verifier::external_body] pub fn get_file(&self) -> (r: &File)
+        requires fd_use_ok(*self), // [fd]
+    { unimplemented!() }
+    #[verifier::external_body] pub fn borrow_fd(&self) -> (r: BorrowedFd)
+        requires fd_use_ok(*self), // [fd]
+    { unimplemented!() }
+}
+#[verifier::external_body] pub fn sync_fd<D: AsRawFd>(fd: &D, datasync: bool) -> (r: io::Result<()>) { unimplemented!() }
+#[verifier::external_body] pub fn stat_fd<D: AsRawFd>(dir: &D, path: Option<&CStr>) -> (r: io::Result<stat64>) { unimplemented!() }
+#[verifier::external_body] pub fn drop_cap_fsetid() -> (r: io::Result<Option<CapFsetid>>) { unimplemented!() }
+#[verifier::external_body] pub fn set_creds(uid: u32, gid: u32) -> (r: io::Result<(Option<ScopedUid>, Option<ScopedGid>)>) { unimplemented!() }
+impl InodeHandle {
+    #[verifier::external_body] pub fn stat(&self) -> (r: io::Result<stat64>) { unimplemented!() }
+}
+impl InodeData {
+    #[verifier::external_body] pub fn get_file(&self) -> (r: io::Result<InodeFile>) { unimplemented!() }
+}
+impl InodeMap {
+    pub open spec fn view(&self) -> Map<Inode, Arc<InodeData>> { self.inodes.v.data@ }
+}
+impl<S: BitmapSlice + Send + Sync> PassthroughFs<S> {
+    // INVARIANT of the server state: directory-position records only for live handles, and every live handle is below the
+    // allocation counter (so the next allocated handle is fresh)
+    pub open spec fn handles_inv(&self) -> bool {
+        self.handle_map.wf() && forall|h: Handle| #[trigger] self.handle_map@.contains_key(h) ==> h < self.next_handle.v
+    }
+    // the handle-related state: table, position records, counter
+    pub open spec fn same_handles(&self, o: &Self) -> bool {
+        self.handle_map@ == o.handle_map@ && self.handle_map.cookies_view() == o.handle_map.cookies_view() && self.next_handle.v == o.next_handle.v
+    }
+    pub open spec fn same_modes(&self, o: &Self) -> bool { self.no_open.v == o.no_open.v && self.no_opendir.v == o.no_opendir.v }
+    // syscall chains (bodies contain `unsafe` or only forward to syscalls): contract only
+    #[verifier::external_body] pub fn open_inode(&self, inode: Inode, flags: i32) -> (r: io::Result<File>)
+        ensures r is Ok ==> file_inode(r->Ok_0) == inode { unimplemented!() }
+    // import(): opens cfg.root_dir and inserts ROOT_ID into the inode map (mod.rs:492); touches nothing else (by reading)
+    #[verifier::external_body] pub fn import(&mut self) -> (r: io::Result<()>)
+        ensures final(self).same_handles(old(self)), final(self).same_modes(old(self)),
+            forall|i: Inode| #[trigger] final(self).inode_map@.contains_key(i) ==> old(self).inode_map@.contains_key(i) || i == fuse::ROOT_ID
+    { unimplemented!() }
+    #[verifier::external_body] pub fn last_cookie_in_buf(buf: &[u8]) -> (r: Option<u64>) { unimplemented!() }
+    #[verifier::external_body] pub fn validate_path_component(&self, name: &CStr) -> (r: io::Result<()>) { unimplemented!() }
+    #[verifier::external_body] pub fn get_writeback_open_flags(&self, flags: i32) -> (r: i32) { unimplemented!() }
+    #[verifier::external_body] pub fn create_file_excl<D: AsRawFd>(dir: &D, pathname: &CStr, flags: i32, mode: u32) -> (r: io::Result<Option<File>>) { unimplemented!() }
+    // do_lookup (mod.rs:665, syscalls): on success the client holds one more reference to the returned inode (new InodeData
+    // inserted or refcount incremented); it touches neither the handle table nor the modes (by reading)
+    #[verifier::external_body] pub fn do_lookup(&mut self, parent: Inode, name: &CStr) -> (r: io::Result<Entry>)
+        ensures final(self).same_handles(old(self)), final(self).same_modes(old(self)),
+            r is Err ==> refs_same(final(self).inode_map, old(self).inode_map),
+            r is Ok ==> forall|i: Inode| #[trigger] lookup_refs(final(self).inode_map, i) == lookup_refs(old(self).inode_map, i) + (if i == r->Ok_0.inode { 1int } else { 0int })
+    { unimplemented!() }
+}
+// number of references the client holds on inode i as recorded by the inode map (refcount of the live InodeData, 0 if none)
+pub uninterp spec fn lookup_refs(m: InodeMap, i: Inode) -> int;
+pub open spec fn refs_same(a: InodeMap, b: InodeMap) -> bool { forall|i: Inode| #[trigger] lookup_refs(a, i) == lookup_refs(b, i) }
+"""
+
+# Client scenarios: hand-written exec code calling the extracted functions; Verus checks the assertions against the CONTRACTS
+# above (nothing here is assumed).  They spell out the sentences of the property that span more than one call.
+LEMMAS = r"""
+// "a handle is usable ... only until it is released": after a successful release no inode resolves it any more
+fn scenario_release_then_use(m: &mut HandleMap, h: Handle, i: Inode, j: Inode) {
+    let r = m.release(h, i);
+    if r.is_ok() {
+        let g = m.get(h, j);
+        assert(g is Err); // [C15.scenario.released_is_dead]
+    }
+}
+// "a handle is usable only with the inode it was opened on"
+fn scenario_wrong_inode(m: &HandleMap, h: Handle, i: Inode, j: Inode)
+    requires m.resolves(h, i), j != i
+{
+    let g = m.get(h, j);
+    assert(g is Err); // [C15.scenario.wrong_inode]
+    let g2 = m.get(h, i);
+    assert(g2 is Ok); // [C15.scenario.right_inode]
+}
+// a release with the wrong inode fails and the handle stays usable with the right one
+fn scenario_wrong_release(m: &mut HandleMap, h: Handle, i: Inode, j: Inode)
+    requires old(m).resolves(h, i), j != i
+{
+    let r = m.release(h, j);
+    assert(r is Err); // [C15.scenario.wrong_release]
+    let g = m.get(h, i);
+    assert(g is Ok); // [C15.scenario.wrong_release_keeps]
+}
+// "distinct opens get distinct handles", and each is usable exactly with its own inode; releasing both restores the table
+fn scenario_two_opens<S: BitmapSlice + Send + Sync>(fs: &mut PassthroughFs<S>, ctx: &Context, i1: Inode, i2: Inode, flags: u32)
+    requires old(fs).handles_inv(), old(fs).next_handle.v < u64::MAX - 1, !old(fs).no_open.v
+{
+    let ghost before = fs.handle_map@;
+    let ghost before_c = fs.handle_map.cookies_view();
+    let a = fs.open(ctx, i1, flags, 0);
+    if let Ok((Some(ha), _, _)) = a {
+        let b = fs.open(ctx, i2, flags, 0);
+        if let Ok((Some(hb), _, _)) = b {
+            assert(ha != hb); // [C15.scenario.distinct]
+            assert(fs.handle_map.resolves(ha, i1) && fs.handle_map.resolves(hb, i2)); // [C15.scenario.both_live]
+            let d = fs.get_data(hb, i2, 0);
+            assert(d is Ok); // [C15.scenario.usable]
+            if i1 != i2 {
+                let e = fs.get_data(ha, i2, 0);
+                assert(e is Err); // [C15.scenario.not_with_other_inode]
+            }
+            let r1 = fs.release(ctx, i1, 0, ha, false, false, None);
+            assert(r1 is Ok); // [C15.scenario.release_ok]
+            let f = fs.get_data(ha, i1, 0);
+            assert(f is Err); // [C15.scenario.dead_after_release]
+            let r2 = fs.release(ctx, i2, 0, hb, false, false, None);
+            assert(r2 is Ok);
+            // "once the client has released every handle ... no more handles or directory-position records" than before
+            assert(fs.handle_map@ =~= before); // [C15.scenario.all_released]
+            assert(fs.handle_map.cookies_view() =~= before_c); // [C15.scenario.all_released_cookies]
+        }
+    }
+}
+// a directory handle with a position record: releasedir leaves neither behind
+fn scenario_dir<S: BitmapSlice + Send + Sync>(fs: &mut PassthroughFs<S>, ctx: &Context, i: Inode, buf: &[u8], off: u64)
+    requires old(fs).handles_inv(), old(fs).next_handle.v < u64::MAX, !old(fs).no_opendir.v
+{
+    let ghost before = fs.handle_map@;
+    let ghost before_c = fs.handle_map.cookies_view();
+    let a = fs.opendir(ctx, i, 0);
+    if let Ok((Some(h), _)) = a {
+        assert(!before_c.contains_key(h));
+        fs.cache_cookie(h, buf);
+        let hit = fs.consume_cached_cookie(h, off);
+        fs.cache_cookie(h, buf);
+        let r = fs.releasedir(ctx, i, 0, h);
+        assert(r is Ok);
+        assert(fs.handle_map@ =~= before); // [C15.scenario.dir_released]
+        assert(fs.handle_map.cookies_view() =~= before_c); // [C15.scenario.dir_cookie_released]
+    }
+}
+// destroy: a later session starts from an empty table and cannot use a handle of the previous one
+fn scenario_destroy<S: BitmapSlice + Send + Sync>(fs: &mut PassthroughFs<S>, h: Handle, i: Inode)
+    requires !old(fs).no_open.v
+{
+    fs.destroy();
+    let d = fs.get_data(h, i, 0);
+    assert(d is Err); // [C15.scenario.destroy_kills_handles]
+}
+"""
+
 
 def unit(root='/repo'):
     HM = 'impl HandleMap'
@@ -190,5 +373,184 @@ def unit(root='/repo'):
                props=['C15'], canary=True),
         ]),
     ]
-    return Unit('handles', items, preludes=['base.rs'],
+    # ---------------------------------------------------------------------------------------- PassthroughFs layer
+    P = 'impl<S: BitmapSlice + Send + Sync> PassthroughFs<S>'
+    PF = 'impl<S: BitmapSlice + Send + Sync> FileSystem for PassthroughFs<S>'
+    G = 'impl<S: BitmapSlice + Send + Sync> PassthroughFs<S> {'
+    ENOSYS = 'r is Err && r->Err_0.os_code() == Some(38i32)'
+    # the descriptor an operation on (handle, inode) may touch: the table's entry for exactly that pair, or - when nothing
+    # is stored (no_open / no_opendir) - a temporary HandleData of that inode
+    def grant(mode):
+        return ('forall|d: HandleData| #[trigger] fd_use_ok(d) <==> (d.inode == inode && (self.%s.v || (self.handle_map.resolves(handle, inode) && d == *self.handle_map@[handle]))) // [C15.grant]' % mode)
+    items += [
+        Raw(PRE_TYPES),
+        Copy(FSMOD, r'pub struct Context\b', prefix='#[derive(Clone, Copy)]', subst=[('libc::uid_t', 'u32'), ('libc::gid_t', 'u32'), ('libc::pid_t', 'i32')]),
+        Copy(CFG, r'pub enum CachePolicy\b', prefix='#[derive(Clone, Copy, PartialEq, Eq)]'),
+        Copy(CFG, r'pub struct Config\b'),
+        Copy(ABI, r'pub const FOPEN_IN_KILL_SUIDGID\b'),
+        Copy(PT, r'const MAX_HOST_INO\b'),
+        Copy(FSMOD, r'pub struct Entry\b', prefix='#[derive(Clone, Copy)]'),
+        Copy(ABI, r'pub struct CreateIn\b', prefix='#[derive(Clone, Copy)]'),
+        Copy(STORE, r'pub struct InodeId\b', prefix='#[derive(Clone, Copy, PartialEq, Eq)]', subst=[('libc::ino64_t', 'u64'), ('libc::dev_t', 'u64')]),
+        Copy(PT, r'pub struct InodeData\b'),
+        Copy(PT, r'enum InodeHandle\b'),
+        Copy(FH, r'pub struct OpenableFileHandle\b'),
+        Copy(STORE, r'pub struct InodeStore\b'),
+        Copy(PT, r'struct InodeMap\b'),
+        Copy(PT, r'pub struct PassthroughFs\b'),
+    ]
+    items += flagsmodel.items(root, ABI, 'OpenOptions')
+    items += [
+        Raw(PRE_PT),
+        Fn(UTIL, None, 'enosys', ensures=['r.os_code() == Some(38i32)'], props=['C15']),
+        Group('impl InodeStore {', [
+            Fn(STORE, 'impl InodeStore', 'clear',
+               ensures=['final(self).data@ == Map::<Inode, Arc<InodeData>>::empty() // [C15.inodes.clear]'], props=['C15']),
+            Fn(STORE, 'impl InodeStore', 'get',
+               ensures=['match r { Some(v) => self.data@.contains_key(*inode) && *v == self.data@[*inode], None => !self.data@.contains_key(*inode) }'], props=['C15']),
+        ]),
+        Group('impl InodeMap {', [
+            Fn(PT, 'impl InodeMap', 'clear', sig_subst=MUT,
+               ensures=['final(self)@ == Map::<Inode, Arc<InodeData>>::empty() // [C15.inodes.map_clear]'], props=['C15'], canary=True),
+            Fn(PT, 'impl InodeMap', 'get',
+               ensures=['r is Ok ==> self@.contains_key(inode) && r->Ok_0 == self@[inode]', 'r is Err <==> !self@.contains_key(inode)'],
+               splices=[('^', 'after', 'broadcast use axiom_arc_cloned;')], props=['C15']),
+        ]),
+        Group(G, [
+            # ---- release
+            Fn(PT, P, 'do_release', sig_subst=MUT,
+               ensures=['r is Ok <==> old(self).handle_map.resolves(handle, inode) // [C15.do_release.iff] released iff the handle exists and was opened on this inode',
+                        'r is Ok ==> final(self).handle_map@ == old(self).handle_map@.remove(handle) // [C15.do_release.exact] exactly this handle, nothing else',
+                        'r is Ok ==> final(self).handle_map.cookies_view() == old(self).handle_map.cookies_view().remove(handle) // [C15.do_release.cookie] its position record goes, no other',
+                        'r is Err ==> final(self).same_handles(old(self)) // [C15.do_release.err_frame] a failed release changes nothing',
+                        'r is Err ==> r->Err_0.os_code() == Some(9i32) // [C15.do_release.ebadf]',
+                        'final(self).next_handle.v == old(self).next_handle.v',
+                        'old(self).handles_inv() ==> final(self).handles_inv() // [C15.do_release.inv]', 'final(self).same_modes(old(self))'],
+               props=['C15'], canary=True),
+            # ---- allocation
+            Fn(PTS, P, 'do_open', sig_subst=MUT,
+               requires=['old(self).handles_inv()',
+                         'old(self).next_handle.v < u64::MAX // ASSUMPTION no_wrap: fewer than 2^64 - 1 handles are allocated in the lifetime of the server'],
+               ensures=['r is Err ==> final(self).same_handles(old(self)) // [C15.do_open.err_no_leak] a failed open stores nothing',
+                        '''r is Ok ==> ({ let h = old(self).next_handle.v;
+                            r->Ok_0.0 == Some(h)
+                            && !old(self).handle_map@.contains_key(h)                                      // distinct opens get distinct handles
+                            && final(self).handle_map@ == old(self).handle_map@.insert(h, final(self).handle_map@[h])      // exactly one new entry
+                            && final(self).handle_map@[h].inode == inode && file_inode(final(self).handle_map@[h].file) == inode
+                            && final(self).next_handle.v == h + 1 }) // [C15.do_open.fresh]''',
+                        'final(self).handle_map.cookies_view() == old(self).handle_map.cookies_view() // [C15.do_open.cookies]',
+                        'final(self).handles_inv() // [C15.do_open.inv]',
+                        'final(self).same_modes(old(self))'],
+               props=['C15'], canary=True),
+        ]),
+        Group('impl<S: BitmapSlice + Send + Sync> PassthroughFs<S> {  // trait FileSystem', [
+            Fn(PTS, PF, 'open', sig_subst=MUT,
+               requires=['old(self).handles_inv()', 'old(self).next_handle.v < u64::MAX // ASSUMPTION no_wrap'],
+               ensures=['old(self).no_open.v ==> %s && final(self).same_handles(old(self)) // [C15.open.no_open] nothing is stored in no_open mode' % ENOSYS,
+                        'r is Err ==> final(self).same_handles(old(self)) // [C15.open.err_no_leak]',
+                        '''r is Ok ==> ({ let h = old(self).next_handle.v;
+                            r->Ok_0.0 == Some(h) && !old(self).handle_map@.contains_key(h)
+                            && final(self).handle_map@ == old(self).handle_map@.insert(h, final(self).handle_map@[h])
+                            && final(self).handle_map@[h].inode == inode && final(self).next_handle.v == h + 1 }) // [C15.open.fresh]''',
+                        'final(self).handle_map.cookies_view() == old(self).handle_map.cookies_view() // [C15.open.cookies]',
+                        'final(self).handles_inv() // [C15.open.inv]', 'final(self).same_modes(old(self))'],
+               props=['C15'], canary=True),
+            Fn(PTS, PF, 'opendir', sig_subst=MUT,
+               requires=['old(self).handles_inv()', 'old(self).next_handle.v < u64::MAX // ASSUMPTION no_wrap'],
+               ensures=['old(self).no_opendir.v ==> %s && final(self).same_handles(old(self)) // [C15.opendir.no_opendir]' % ENOSYS,
+                        'r is Err ==> final(self).same_handles(old(self)) // [C15.opendir.err_no_leak]',
+                        '''r is Ok ==> ({ let h = old(self).next_handle.v;
+                            r->Ok_0.0 == Some(h) && !old(self).handle_map@.contains_key(h)
+                            && final(self).handle_map@ == old(self).handle_map@.insert(h, final(self).handle_map@[h])
+                            && final(self).handle_map@[h].inode == inode && final(self).next_handle.v == h + 1 }) // [C15.opendir.fresh]''',
+                        'final(self).handle_map.cookies_view() == old(self).handle_map.cookies_view() // [C15.opendir.cookies]',
+                        'final(self).handles_inv() // [C15.opendir.inv]', 'final(self).same_modes(old(self))'],
+               splices=[('|tp_1|', 'closure', '|tp_1: (Option<Handle>, OpenOptions, Option<u32>)| -> (q: (Option<Handle>, OpenOptions)) ensures q.0 == tp_1.0')],
+               props=['C15'], canary=True),
+            Fn(PTS, PF, 'create', sig_subst=MUT,
+               requires=['old(self).handles_inv()', 'old(self).next_handle.v < u64::MAX // ASSUMPTION no_wrap'],
+               ensures=['r is Err ==> final(self).same_handles(old(self)) // [C15.create.err_no_handle_leak] a failed create stores no handle',
+                        '''r is Ok && !old(self).no_open.v ==> ({ let h = old(self).next_handle.v;
+                            r->Ok_0.1 == Some(h) && !old(self).handle_map@.contains_key(h)
+                            && final(self).handle_map@ == old(self).handle_map@.insert(h, final(self).handle_map@[h])
+                            && final(self).handle_map@[h].inode == r->Ok_0.0.inode && final(self).next_handle.v == h + 1 }) // [C15.create.fresh] the handle belongs to the inode of the returned entry''',
+                        'r is Ok && old(self).no_open.v ==> r->Ok_0.1 is None && final(self).same_handles(old(self)) // [C15.create.no_open] nothing is stored in no_open mode',
+                        'final(self).handle_map.cookies_view() == old(self).handle_map.cookies_view() // [C15.create.cookies]',
+                        'final(self).handles_inv() // [C15.create.inv]', 'final(self).same_modes(old(self))']
+                       + (['r is Err ==> refs_same(final(self).inode_map, old(self).inode_map) // [C15.create.err_no_inode_leak] a failed create leaves no inode reference behind'] if CHECK_CREATE_ERR_PATHS else []),
+               props=['C15'], canary=True),
+            Fn(PTS, PF, 'release', sig_subst=MUT,
+               ensures=['old(self).no_open.v ==> %s && final(self).same_handles(old(self)) // [C15.release.no_open] the table is untouched in no_open mode' % ENOSYS,
+                        '!old(self).no_open.v ==> (r is Ok <==> old(self).handle_map.resolves(handle, inode)) // [C15.release.iff]',
+                        '''!old(self).no_open.v && r is Ok ==> final(self).handle_map@ == old(self).handle_map@.remove(handle)
+                            && final(self).handle_map.cookies_view() == old(self).handle_map.cookies_view().remove(handle) // [C15.release.exact]''',
+                        'r is Err ==> final(self).same_handles(old(self)) // [C15.release.err_frame]',
+                        'old(self).handles_inv() ==> final(self).handles_inv() // [C15.release.inv]', 'final(self).same_modes(old(self))'],
+               props=['C15'], canary=True),
+            Fn(PTS, PF, 'releasedir', sig_subst=MUT,
+               ensures=['old(self).no_opendir.v ==> %s && final(self).same_handles(old(self)) // [C15.releasedir.no_opendir]' % ENOSYS,
+                        '!old(self).no_opendir.v ==> (r is Ok <==> old(self).handle_map.resolves(handle, inode)) // [C15.releasedir.iff]',
+                        '''!old(self).no_opendir.v && r is Ok ==> final(self).handle_map@ == old(self).handle_map@.remove(handle)
+                            && final(self).handle_map.cookies_view() == old(self).handle_map.cookies_view().remove(handle) // [C15.releasedir.exact]''',
+                        'r is Err ==> final(self).same_handles(old(self)) // [C15.releasedir.err_frame]',
+                        'old(self).handles_inv() ==> final(self).handles_inv() // [C15.releasedir.inv]', 'final(self).same_modes(old(self))'],
+               props=['C15'], canary=True),
+            # ---- destroy: nothing but the re-imported root survives
+            Fn(PTS, PF, 'destroy', sig_subst=MUT,
+               ensures=['final(self).handle_map@ == Map::<Handle, Arc<HandleData>>::empty() // [C15.destroy.handles]',
+                        'final(self).handle_map.cookies_view() == Map::<Handle, u64>::empty() // [C15.destroy.cookies]',
+                        'forall|i: Inode| #[trigger] final(self).inode_map@.contains_key(i) ==> i == fuse::ROOT_ID // [C15.destroy.inodes] no live inode object but the root',
+                        'final(self).next_handle.v == old(self).next_handle.v // handles of the previous session are not reused',
+                        'final(self).handles_inv() // [C15.destroy.inv]', 'final(self).same_modes(old(self))'],
+               props=['C15'], canary=True),
+        ]),
+        Group(G, [
+            # ---- resolution of a handle by the operations that use it
+            Fn(PTS, P, 'get_data',
+               ensures=['!self.no_open.v ==> (r is Ok <==> self.handle_map.resolves(handle, inode)) // [C15.get_data.iff] only with the inode it was opened on, only while it is in the table',
+                        '!self.no_open.v && r is Ok ==> r->Ok_0 == self.handle_map@[handle] // [C15.get_data.entry]',
+                        '!self.no_open.v && r is Err ==> r->Err_0.os_code() == Some(9i32) // [C15.get_data.ebadf]',
+                        'self.no_open.v && r is Ok ==> r->Ok_0.inode == inode && file_inode(r->Ok_0.file) == inode // [C15.get_data.temp] a temporary descriptor of the request\'s inode'],
+               props=['C15'], canary=True),
+            Fn(PTS, P, 'get_dirdata',
+               ensures=['!self.no_opendir.v ==> (r is Ok <==> self.handle_map.resolves(handle, inode)) // [C15.get_dirdata.iff]',
+                        '!self.no_opendir.v && r is Ok ==> r->Ok_0 == self.handle_map@[handle] // [C15.get_dirdata.entry]',
+                        '!self.no_opendir.v && r is Err ==> r->Err_0.os_code() == Some(9i32) // [C15.get_dirdata.ebadf]',
+                        'self.no_opendir.v && r is Ok ==> r->Ok_0.inode == inode && file_inode(r->Ok_0.file) == inode // [C15.get_dirdata.temp]'],
+               props=['C15'], canary=True),
+            Fn(PTS, P, 'do_getattr', sig_subst=[('libc::stat64', 'stat64')],
+               requires=['''forall|d: HandleData| #[trigger] fd_use_ok(d) <==> (handle is Some && !self.no_open.v && self.handle_map.resolves(handle->Some_0, inode)
+                            && d == *self.handle_map@[handle->Some_0]) // [C15.grant]'''],
+               ensures=['handle is Some && !self.no_open.v && !self.handle_map.resolves(handle->Some_0, inode) ==> r is Err // [C15.do_getattr.stale]'],
+               props=['C15'], canary=True),
+            # ---- directory-position records
+            Fn(PTS, P, 'consume_cached_cookie', sig_subst=MUT,
+               ensures=['old(self).no_opendir.v ==> !r && final(self).same_handles(old(self)) // [C15.cookie.consume.no_opendir]',
+                        '!old(self).no_opendir.v ==> final(self).handle_map.cookies_view() == old(self).handle_map.cookies_view().remove(handle) // [C15.cookie.consume.exact]',
+                        'final(self).handle_map@ == old(self).handle_map@ && final(self).next_handle.v == old(self).next_handle.v // [C15.cookie.consume.frame]',
+                        '!old(self).no_opendir.v ==> r == (old(self).handle_map.cookies_view().contains_key(handle) && old(self).handle_map.cookies_view()[handle] == offset)',
+                        'old(self).handles_inv() ==> final(self).handles_inv() // [C15.cookie.consume.inv]', 'final(self).same_modes(old(self))'],
+               splices=[('|cookie|', 'closure', '|cookie: u64| -> (q: bool) ensures q == (cookie == offset)')],
+               props=['C15'], canary=True),
+            Fn(PTS, P, 'cache_cookie', sig_subst=MUT,
+               # the (unextracted, `unsafe`) caller do_readdir has resolved (handle, inode) through get_dirdata before: assumed
+               requires=['!old(self).no_opendir.v ==> old(self).handle_map@.contains_key(handle) // ASSUMPTION on the caller do_readdir'],
+               ensures=['old(self).no_opendir.v ==> final(self).same_handles(old(self)) // [C15.cookie.cache.no_opendir] no position record in no_opendir mode',
+                        '''final(self).handle_map.cookies_view() == old(self).handle_map.cookies_view()
+                            || (final(self).handle_map.cookies_view().contains_key(handle) && final(self).handle_map.cookies_view() == old(self).handle_map.cookies_view().insert(handle, final(self).handle_map.cookies_view()[handle])) // [C15.cookie.cache.exact] at most the record of this handle''',
+                        'final(self).handle_map@ == old(self).handle_map@ && final(self).next_handle.v == old(self).next_handle.v // [C15.cookie.cache.frame]',
+                        'old(self).handles_inv() ==> final(self).handles_inv() // [C15.cookie.cache.inv]', 'final(self).same_modes(old(self))'],
+               props=['C15'], canary=True),
+        ]),
+        Group('impl<S: BitmapSlice + Send + Sync> PassthroughFs<S> {  // trait FileSystem (2)', [
+            Fn(PTS, PF, 'fsync', requires=[grant('no_open')],
+               ensures=['!self.no_open.v && !self.handle_map.resolves(handle, inode) ==> r is Err && r->Err_0.os_code() == Some(9i32) // [C15.fsync.stale]'],
+               props=['C15'], canary=True),
+            Fn(PTS, PF, 'fsyncdir', requires=[grant('no_opendir')],
+               ensures=['!self.no_opendir.v && !self.handle_map.resolves(handle, inode) ==> r is Err && r->Err_0.os_code() == Some(9i32) // [C15.fsyncdir.stale]'],
+               props=['C15'], canary=True),
+        ]),
+        Raw(LEMMAS),
+    ]
+    return Unit('handles', items, preludes=['base.rs'], generic_tags={'fd': ['C15']},
                 notes='sequential model of RwLock/Mutex/atomics: &self -> &mut self on mutating functions (logged as SIG)')
